@@ -38,6 +38,9 @@ class Ctx:
             d = extract.load(config)
             self._facts[config] = Facts(d)
             self.bodies_analysed[config] = len(d["bodies"])
+            if d.get("_canon"):
+                self.note("[%s] items found in another module than the rule packs name were mapped back (sa/canon.py): %s" % (
+                    config, ", ".join("%s -> %s" % kv for kv in sorted(d["_canon"].items()))))
         self.cur_config = config
         if os.environ.get("VERIF_X") == "1":
             from . import inline
